@@ -190,14 +190,14 @@ func algoArg(cs algoCase) Val {
 
 var alphaSmall = []int{'a', 'A', 'b', '_', ' ', 0xe9}
 var alphaPat = []int{'a', 'b', '_', ' ', 0xe9}
-var alphaWide = []int{'a', 'b', 'c', 'A', 'B', 'Z', 'z', '0', '9', '_', '-', '/', ',', ':', ' ', '\t', '.', 'x', 'y',
+var alphaWide = []int{'a', 'b', 'c', 'A', 'B', 'Z', 'z', '0', '9', '_', '-', '/', ',', ':', ' ', '\t', '\f', '\v', '.', 'x', 'y',
 	0xe9, 0xc9, 0xe0, 0xf1, 0xbf, 0xc0, 0x2184, 0x2185, 0x3042, 0x4e2d, 0x1F600, 0x0301, 0xa0, 0x85, 0x2003, 0x130, 0x131, 0x1c5, 0x2160,
 	// capitals whose lower-case form (only) is in the normalisation table, and table entries of both cases
 	0x1ea0, 0x1ea1, 0x1ecc, 0x1ecd, 0x1ee4, 0x1ef2, 0x1ebc, 0xc5, 0xe5, 0x2c62, 0x26b, 0xd3, 0xf3, 0x1b0, 0x1af,
 	0x3000, 0x1680, 0x2028}
 
 // multi-byte white space: the trimming of the anchored matchers counts runes, the text may be held as bytes
-var alphaSpace = []int{' ', '\t', 0xa0, 0x3000, 0x2003, 0x85, 0x1680, 0x2028}
+var alphaSpace = []int{' ', '\t', '\v', '\f', '\r', '\n', 0xa0, 0x3000, 0x2003, 0x85, 0x1680, 0x2028}
 
 func genText(r *RNG, n int, asciiOnly bool) []int {
 	t := make([]int, n)
